@@ -2494,9 +2494,9 @@ int parse_instruction_mips(AsmContext *asm_context, char *instr)
 
               int immediate = operands[r].value >> 3;
 
-              if (operands[r].value < 0 || operands[r].value > 0x7fff)
+              if (operands[r].value < 0 || operands[r].value > (0x7ff << 3))
               {
-                print_error_range(asm_context, "Immediate", 0, 0x7fff << 8);
+                print_error_range(asm_context, "Immediate", 0, 0x7ff << 3);
                 return -1;
               }
 
